@@ -137,7 +137,8 @@ func runCComplete(raw json.RawMessage) interface{} {
 	defer os.Unsetenv("CARAPACE_UNFILTERED")
 	carapace.VerifSetMatch(false)
 	cobraSideMarkers = in.CobraSide
-	defer func() { cobraSideMarkers = false }()
+	mixedMarkers = in.Mixed && !in.CobraSide
+	defer func() { cobraSideMarkers, mixedMarkers = false, false }()
 	doc, _, perr := completeLine(in.Tree, in.Words)
 	lines, cerr := cobraComplete(in.Tree, in.Words)
 	return map[string]interface{}{"export": doc, "panic": perr, "cobra": lines, "cobraErr": cerr, "typedRun": executeLine(in.Tree, in.Words[:len(in.Words)-1])}
@@ -196,7 +197,7 @@ func genCComplete(r *rng, tier string) interface{} {
 	default:
 		words = append(words, "--", "")
 	}
-	return parseIn{Tree: t, Words: words, CobraSide: r.chance(50)}
+	return parseIn{Tree: t, Words: words, CobraSide: r.chance(40), Mixed: r.chance(40)}
 }
 
 func init() {
